@@ -634,11 +634,14 @@ func (c *Conn) send(ctx context.Context, f func(context.Context) error) error {
 		if err := c.state.WaitUntilOrClosed(ctx, connStatusConnected); err != nil {
 			return err
 		}
+		generation := c.state.Reconnects()
 		if err := f(ctx); err != nil {
 			if !errors.Is(err, errors.ErrConnectionClosed) {
 				return err
 			}
-			if c.state.CompareAndSwapNot(connStatusClosed, connStatusReconnecting) {
+			// Ask for a reconnect only if none has begun since this attempt started: a failure on a
+			// connection that has already been replaced must not tear down the new one.
+			if c.state.StartReconnectIfGeneration(generation) {
 				continue
 			}
 			return errors.ErrConnectionClosed
